@@ -373,7 +373,7 @@ def plans(prop, tier):
               # a side that has a resend request pending sends a compressible (even-sized) chunk itself
               ("v7-rr-compress", B(V7=True, Senders={"c", "s"}, Sizes={40}, MaxVital=2, MaxVitalS=1, MaxNV=0, MaxFaults=1, MaxClock=0)),
               ("v6tok-rr-compress", B(Senders={"c", "s"}, Sizes={40}, MaxVital=2, MaxVitalS=1, MaxNV=0, MaxFaults=1, MaxClock=0))]
-        dr = [(m, "random", 1, 400) for m in ("v6tok", "v6plain", "v7")]
+        dr = [(m, "random", 1, 400) for m in ("v6tok", "v6plain", "v7")] + [(m, "repack", 1, 0) for m in ("v6tok", "v7")]
         if not q:
             mc += [("v6tok-L", B(Senders={"c", "s"}, MaxVital=1, MaxNV=0, MaxFaults=2, MaxClock=2, MaxInFlight=2)),
                    ("v7-L", B(V7=True, MaxVital=2, MaxNV=1, MaxFaults=2, MaxClock=2)),
@@ -386,7 +386,8 @@ def plans(prop, tier):
                    ("v6tok-3inflight", B(MaxVital=2, MaxFaults=1, MaxClock=1, MaxInFlight=3)),
                    ("v7-sback-clock", B(V7=True, Senders={"c", "s"}, MaxVital=1, MaxVitalS=3, MaxFaults=1, MaxClock=1)),
                    ("v6plain-sback-clock", B(TokenMode=False, Senders={"c", "s"}, MaxVital=1, MaxVitalS=3, MaxFaults=1, MaxClock=1))]
-            dr = [(m, "random", s, 1500) for m in ("v6tok", "v6plain", "v7", "v6wrap", "v7wrap") for s in (1, 2, 3)]
+            dr = [(m, "random", s, 1500) for m in ("v6tok", "v6plain", "v7", "v6wrap", "v7wrap") for s in (1, 2, 3)] + \
+                 [(m, "repack", s, 0) for m in ("v6tok", "v6plain", "v7", "v6wrap") for s in (1, 2)]
     elif prop == "C02":
         live = [("v6tok-live", B(MaxVital=1, MaxFaults=1, MaxClock=1)),
                 ("v7-live", B(V7=True, MaxVital=1, MaxFaults=1, MaxClock=1)),
@@ -459,8 +460,8 @@ def run_property(ctx, prop):
                         "verif hook projection (connection::verif) is faithful to the private state"]
     # 1. the model itself
     th = ctx.tier == "thorough"
-    jobs = [(model_check, (ctx, n, c, 6 if th else 3, 3000 if th else 400, False)) for n, c in mc]
-    jobs += [(model_check, (ctx, n, c, 6 if th else 3, 3000 if th else 400, True)) for n, c in live]
+    jobs = [(model_check, (ctx, n, c, 6 if th else 3, 3000 if th else 1200, False)) for n, c in mc]
+    jobs += [(model_check, (ctx, n, c, 6 if th else 3, 3000 if th else 1200, True)) for n, c in live]
     for (n, c), res in zip(mc + live, run_parallel(jobs, 3 if th else 4)):
         if not res.ok:
             ctx.report("model:%s:%s" % (n, res.violated or "error"),
